@@ -52,18 +52,24 @@ def matmul(env, A, B):
     return np.asarray(A, dtype=float).dot(np.asarray(B, dtype=float))
 
 
-@job("c10.element", ("C10", "C02"), cfgs=[dict(ny=2), dict(ny=3, _tier=T)], ranges=R10, cost=60)
-def element(env, ny):
+@job("c10.element", ("C10", "C02"), cfgs=[dict(ny=2), dict(ny=2, via="setup", model="wingbox"), dict(ny=2, via="setup", model="tube", _tier=T),
+                                          dict(ny=3, _tier=T)], ranges=R10, cost=60)
+def element(env, ny, via="assemble", model="tube"):
     """the real AssembleKGroup (Transform, Length, LocalStiff, LocalStiffPermuted, LocalStiffTransformed wired by OpenMDAO)
-    produces, for every element, T^T K_local T of the textbook frame element with the documented local axes"""
-    s = surface(name="wing", nx=2, ny=ny, symmetry=True, side="left")
-    g = gsx.GroupSX(env, lambda m: m.add_subsystem("k", cls("structures.assemble_k_group.AssembleKGroup")(surface=s), promotes=["*"]))
+    produces, for every element, T^T K_local T of the textbook frame element with the documented local axes and the
+    elastic constants E, G of the surface dictionary; via="setup": reached through the real SpatialBeamSetup group (mesh ->
+    nodes -> stiffness) for the tube and the wingbox model"""
+    s = surface(name="wing", nx=2, ny=ny, symmetry=True, side="left", model=model)
+    if via == "setup":
+        g = gsx.GroupSX(env, lambda m: m.add_subsystem("k", cls("structures.spatial_beam_setup.SpatialBeamSetup")(surface=s), promotes=["*"]))
+    else:
+        g = gsx.GroupSX(env, lambda m: m.add_subsystem("k", cls("structures.assemble_k_group.AssembleKGroup")(surface=s), promotes=["*"]))
     given = {p: env.var(p, g.free_shape(p)) for p in g.prom_inputs()}
     for path, vals in env.explore(lambda: g.run(given)):
         tag = (" @path(%s)" % ";".join("%s=%s" % (repr(c)[:50], "T" if bb else "F") for c, bb in path)) if path else ""
         klt = g.get(vals, "local_stiff_transformed")
-        tr = g.get(vals, "transform")
-        nodes = given["nodes"]
+        tr = g.get(vals, "k.assembly.transform.transform" if via == "setup" else "transform")
+        nodes = g.get(vals, "nodes") if via == "setup" else given["nodes"]
         for e in range(ny - 1):
             L, Rm = local_axes(env, nodes[e], nodes[e + 1])
             RRt = matmul(env, Rm, Rm.T)
@@ -78,7 +84,7 @@ def element(env, ny):
             Kg = matmul(env, matmul(env, Tm.T, Kl), Tm)
             env.eq("C10", "element stiffness in global axes == T^T K_local T of the textbook Euler-Bernoulli frame element [element %d]" % e + tag, klt[e], Kg)
             env.eq("C10,C02", "element stiffness in global axes is symmetric [element %d]" % e + tag, klt[e], klt[e].T)
-        el = g.get(vals, "element_lengths")
+        el = g.get(vals, "k.assembly.length.element_lengths" if via == "setup" else "element_lengths")
         d = nodes[1:] - nodes[:-1]
         env.eq("C10", "element lengths == distance between consecutive nodes" + tag, el * el, (d * d).sum(axis=1))
 
